@@ -7,7 +7,9 @@ from . import smt
 from .values import PathEnd, Unsupported
 
 FEAS_TIMEOUT_MS = 3000
-MUST_TIMEOUT_MS = 3000
+MUST_TIMEOUT_MS = 3001
+FEAS_RLIMIT = 1500000      # deterministic budgets (z3 resource units; ~0.5-1.5 s)
+MUST_RLIMIT = 3000000
 
 
 class Obligation(object):
@@ -25,8 +27,121 @@ class Obligation(object):
         return list(self.hyps) + [z3.Not(self.goal)]
 
 
+_light_cache = {}
+
+
+def _is_light(f):
+    """no sequence-sorted subterm (and no string-theory predicate)"""
+    k = f.get_id()
+    r = _light_cache.get(k)
+    if r is not None:
+        return r
+    seen = set()
+    stack = [f]
+    ok = True
+    while stack:
+        t = stack.pop()
+        i = t.get_id()
+        if i in seen:
+            continue
+        seen.add(i)
+        c = _light_cache.get(i)
+        if c is False:
+            ok = False
+            break
+        if c is True:
+            continue
+        try:
+            if t.sort().kind() == z3.Z3_SEQ_SORT:
+                ok = False
+                break
+        except z3.Z3Exception:
+            ok = False
+            break
+        if z3.is_quantifier(t):
+            ok = False
+            break
+        if z3.is_app(t):
+            stack.extend(t.children())
+    _light_cache[k] = ok
+    if len(_light_cache) > 400000:
+        _light_cache.clear()
+    return ok
+
+
+_abs_cache = {}      # id -> (original term kept alive, abstraction, only_measures)
+
+
+def _abstract(f):
+    """Sound weakening for the light solver: every maximal non-sequence-sorted subterm that has a
+    sequence-sorted child (|x|, SUM(xs), x == y on sequences, byte extraction ...) is replaced by
+    a fresh constant of its sort (the same constant for the same term).  Returns
+    (abstraction, only_measures) where only_measures says that only length / SUM terms were
+    abstracted (no content-sensitive term)."""
+    k = f.get_id()
+    hit = _abs_cache.get(k)
+    if hit is not None:
+        return hit[1], hit[2]
+    only = True
+    if not z3.is_app(f) or z3.is_quantifier(f):
+        res = z3.Const('abs!%d' % k, f.sort())
+        only = False
+    else:
+        kids = f.children()
+        if any(c.sort().kind() == z3.Z3_SEQ_SORT for c in kids):
+            res = z3.Const('abs!%d' % k, f.sort())
+            d = f.decl()
+            dk = d.kind()
+            if not (dk == z3.Z3_OP_SEQ_LENGTH or (dk == z3.Z3_OP_UNINTERPRETED and d.name().startswith('SUM_'))):
+                only = False
+        elif not kids:
+            res = f
+        else:
+            new = []
+            changed = False
+            for c in kids:
+                a, o = _abstract(c)
+                only = only and o
+                changed = changed or (a is not c)
+                new.append(a)
+            if changed:
+                try:
+                    dk = f.decl().kind()
+                    if dk == z3.Z3_OP_AND:
+                        res = z3.And(*new)
+                    elif dk == z3.Z3_OP_OR:
+                        res = z3.Or(*new)
+                    elif dk == z3.Z3_OP_ADD:
+                        res = z3.Sum(*new)
+                    elif dk == z3.Z3_OP_MUL:
+                        res = z3.Product(*new)
+                    elif dk == z3.Z3_OP_DISTINCT:
+                        res = z3.Distinct(*new)
+                    else:
+                        res = f.decl()(*new)
+                except (z3.Z3Exception, Exception):
+                    res = z3.Const('abs!%d' % k, f.sort())
+                    only = False
+            else:
+                res = f
+    _abs_cache[k] = (f, res, only)
+    return res, only
+
+
+def _is_atom(t):
+    """constant or application of an uninterpreted function (be/unbe/enc are not atoms)"""
+    if not z3.is_app(t):
+        return False
+    d = t.decl()
+    if d.kind() != z3.Z3_OP_UNINTERPRETED:
+        return False
+    name = d.name()
+    return not (name.startswith('be') or name.startswith('le') or name in ('enc', 'pad16', 'spad16', 'strip0'))
+
+
 class Path(object):
     def __init__(self, prefix, label=''):
+        self.defs = {}
         self.prefix = list(prefix)
         self.taken = []
         self.alternatives = []
@@ -34,6 +149,14 @@ class Path(object):
         self.facts = smt.Facts()
         self._pushed = 0
         self.solver = smt.mk_solver()
+        self.light = smt.mk_solver()
+        self._light_pc = 0
+        self._light_facts = 0
+        self.n_full = 0
+        self.n_light = 0
+        self._must_idx = 0
+        self.shared_cache = None
+        self._emitted = {}
         self.counter = 0
         self.obligations = []
         self.trace = []
@@ -56,12 +179,9 @@ class Path(object):
 
     # -- assumptions -----------------------------------------------------
     def _sync(self):
-        items = self.facts.items
-        while self._pushed < len(items):
-            self.solver.add(items[self._pushed])
-            self._pushed += 1
+        pass
 
-    def assume(self, cond):
+    def assume(self, cond, note=True):
         if isinstance(cond, bool):
             if not cond:
                 raise PathEnd('assumed False')
@@ -72,15 +192,84 @@ class Path(object):
         if z3.is_false(c):
             raise PathEnd('assumed false')
         self.pc.append(cond)
-        self.solver.add(cond)
+        if note:
+            self.note_def(cond)
+
+    def note_def(self, cond, force=False):
+        """remember equalities  atom == <structured bytes term>  so that later splits can
+        follow them syntactically (they are assumed facts of this path)"""
+        try:
+            if force and z3.is_app(cond) and cond.decl().kind() == z3.Z3_OP_EQ:
+                self.defs.setdefault(cond.arg(0).get_id(), cond.arg(1))
+                return
+            if not (z3.is_app(cond) and cond.decl().kind() == z3.Z3_OP_EQ):
+                if z3.is_app(cond) and cond.decl().kind() == z3.Z3_OP_AND:
+                    for i in range(cond.num_args()):
+                        self.note_def(cond.arg(i))
+                return
+            a, b = cond.arg(0), cond.arg(1)
+            if a.sort() != smt.Bytes:
+                return
+            for lhs, rhs in ((a, b), (b, a)):
+                if _is_atom(lhs) and not _is_atom(rhs):
+                    self.defs.setdefault(lhs.get_id(), rhs)
+                    return
+            for lhs, rhs in ((a, b), (b, a)):
+                # constant == application (e.g. havoc'd stream content == JOIN(todo))
+                if _is_atom(lhs) and lhs.num_args() == 0 and _is_atom(rhs) and rhs.num_args() > 0:
+                    self.defs.setdefault(lhs.get_id(), rhs)
+                    return
+        except z3.Z3Exception:
+            return
 
     def _check(self, extra, timeout):
-        self._sync()
-        self.solver.set('timeout', timeout)
+        """Full check of pc /\\ facts /\\ extra with a *fresh* solver: z3's incremental core
+        (check with assumptions on a long-lived solver) is 10-50x slower on these sequence
+        problems than a one-shot solve.  The budget is a deterministic resource limit (rlimit),
+        not wall time, so answers do not depend on machine load."""
+        s = z3.Solver()
+        s.set('rlimit', FEAS_RLIMIT if timeout == FEAS_TIMEOUT_MS else MUST_RLIMIT)
+        for f in self.pc:
+            s.add(f)
+        for f in self.facts.items:
+            s.add(f)
+        for e in extra:
+            s.add(e)
         t0 = time.time()
-        r = self.solver.check(*extra)
+        r = s.check()
         self.solver_time += time.time() - t0
+        self.n_full += 1
         return r
+
+    # The *light* solver holds only the hypotheses that mention no sequence-sorted term.  It has
+    # fewer hypotheses than the path, so whatever it refutes / proves, the path refutes / proves;
+    # it answers in microseconds and spares most calls of the sequence solver.
+    def _sync_light(self):
+        while self._light_pc < len(self.pc):
+            f = self.pc[self._light_pc]
+            self._light_pc += 1
+            self.light.add(_abstract(f)[0])
+        items = self.facts.items
+        while self._light_facts < len(items):
+            f = items[self._light_facts]
+            self._light_facts += 1
+            self.light.add(_abstract(f)[0])
+
+    def _check_light(self, extra):
+        """returns (result, exact): exact = the extra conditions lost nothing but length/SUM terms"""
+        self._sync_light()
+        ab = []
+        exact = True
+        for e in extra:
+            a, only = _abstract(e)
+            ab.append(a)
+            exact = exact and only
+        self.light.set('rlimit', 1000000)
+        t0 = time.time()
+        r = self.light.check(*ab)
+        self.solver_time += time.time() - t0
+        self.n_light += 1
+        return r, exact
 
     def feasible(self, cond=None):
         """False only if pc /\\ cond is unsat; unknown counts as feasible."""
@@ -95,6 +284,14 @@ class Path(object):
                     return False
                 if not z3.is_true(c):
                     extra = [cond]
+        lr, exact = self._check_light(extra)
+        if lr == z3.unsat:
+            return False
+        if lr == z3.sat and extra and exact:
+            # a sequence-free condition consistent with all sequence-free hypotheses: explore it
+            # (if the sequence facts do exclude it, its obligations are vacuous -- sound, and
+            # much cheaper than asking the sequence solver about arithmetic)
+            return True
         return self._check(extra, FEAS_TIMEOUT_MS) != z3.unsat
 
     def must(self, cond):
@@ -106,7 +303,30 @@ class Path(object):
             return True
         if z3.is_false(c):
             return False
-        return self._check([z3.Not(cond)], MUST_TIMEOUT_MS) == z3.unsat
+        if self._check_light([z3.Not(cond)])[0] == z3.unsat:
+            return True
+        # Re-execution is deterministic: the k-th entailment query after the same decisions is
+        # the same query on every path sharing that prefix -- answer it once per exploration.
+        self._must_idx += 1
+        key = (self._must_idx, tuple(self.taken))
+        cache = self.shared_cache
+        if cache is not None and key in cache:
+            return cache[key]
+        r = self._check([z3.Not(cond)], MUST_TIMEOUT_MS) == z3.unsat
+        if cache is not None:
+            cache[key] = r
+        return r
+
+    def must_light(self, cond):
+        """entailment decided by the light solver only (cheap, incomplete)"""
+        if isinstance(cond, bool):
+            return cond
+        c = z3.simplify(cond)
+        if z3.is_true(c):
+            return True
+        if z3.is_false(c):
+            return False
+        return self._check_light([z3.Not(cond)])[0] == z3.unsat
 
     # -- decisions -------------------------------------------------------
     def choose(self, conds, what=''):
@@ -155,6 +375,11 @@ class Path(object):
         self._sync()
         ob = Obligation(name, list(self.pc) + list(self.facts.items), goal, kind, meta)
         ob.meta.setdefault('path', list(self.taken))
+        ob.at = tuple(self.taken)     # decisions taken when the obligation was emitted
+        occ = self._emitted.get((name, ob.at), 0)
+        self._emitted[(name, ob.at)] = occ + 1
+        if occ:
+            ob.name = '%s~%d' % (name, occ)
         self.obligations.append(ob)
         if assume_after:
             try:
